@@ -359,6 +359,8 @@ def build(tier, rnd):
     # client audit with nobody connecting: the listener gives up after the configured timeout
     scs.append({'argv': ['-n', '-c', '-p', '2222', '-t', '3'], 'clients': []})
     meta.append(('none', 'client-audit-no-client', None, peers.ServerCfg(), False))
+    scs.append({'argv': ['-n', '-c', '-p', '2222'], 'clients': []})
+    meta.append(('none', 'client-audit-no-client-default-timeout', None, peers.ServerCfg(), False))
     # unreachable targets
     scs.append({'argv': ['-n', HOST], 'servers': {}})
     meta.append(('none', 'refused', None, peers.ServerCfg(), False))
@@ -475,8 +477,8 @@ def run(tier):
                              '[%s, %s] the peer never delivered a complete, well-formed KEXINIT, yet the audit ends with status %s%s'
                              % (name, what, res.get('exit'), ' and prints an algorithm report' if audit.has_report(res) else ''), replay)
                 continue
-        if what == 'client-audit-no-client':
-            if res.get('exit') != 1 or res.get('vtime', 0) > 3.0 + 1.5:
+        if what.startswith('client-audit-no-client'):
+            if res.get('exit') != 1 or res.get('vtime', 0) > (3.0 if what == 'client-audit-no-client' else 5.0) + 1.5:
                 ck.violation('client-audit-listener-timeout', 'client audit with -t 3 and no client: status %s after %.1f virtual seconds' % (res.get('exit'), res.get('vtime', 0)), replay)
             else:
                 ck.cov['traces_validated_against_impl'] += 1
